@@ -1,7 +1,27 @@
 (* Extraction entry point for C08 (generic TLV models). *)
-From NDN Require Import Base.Prelude Base.Sexp Base.Utf8 Model.TlvVar Model.Tlv Extract.TlvSexp.
+From NDN Require Import Base.Prelude Base.Sexp Base.Utf8 Model.TlvVar Model.Tlv Model.TlvCollect Extract.TlvSexp.
 From Coq Require Extraction ExtrOcamlBasic.
 Local Open Scope N_scope.
+
+(* a class body: ((0 name field-id) | (1 <body of the included base>)) ...   (Model/TlvCollect.v) *)
+Fixpoint as_body (fuel : nat) (s : sexp) : option (body N) :=
+  match fuel with
+  | O => None
+  | S f =>
+      match s with
+      | SList items =>
+          (fix go (its : list sexp) : option (body N) :=
+             match its with
+             | [] => Some BNil
+             | SList [SNum 0; n; a] :: r =>
+                 odo nn <- as_num n ;; odo aa <- as_num a ;; odo rr <- go r ;; Some (BOwn nn aa rr)
+             | SList [SNum 1; b] :: r =>
+                 odo bb <- as_body f b ;; odo rr <- go r ;; Some (BIncl bb rr)
+             | _ => None
+             end) items
+      | _ => None
+      end
+  end.
 
 Definition run (req : sexp) : sexp :=
   match req with
@@ -16,6 +36,8 @@ Definition run (req : sexp) : sexp :=
               Some (s_res s_values (parse_model (S (fields_depth f)) f i w)))
   | SList [SNum 4; SBytes w] => s_res (s_list s_elem) (split_wire w)
   | SList [SNum 5; SBytes b] => s_bool (utf8_valid b)
+  | SList [SNum 6; b] =>
+      or_bad (odo bb <- as_body 64 b ;; Some (s_list (s_pair SNum SNum) (collect bb)))
   | _ => s_bad_request
   end.
 
